@@ -1405,6 +1405,15 @@ func (self *Analyzer) ifExpression(node pAst.IfExpression) ast.AnalyzedIfExpress
 	}
 }
 
+// Whether `typ` is the type of a bare `none` (an option of the placeholder `any`).
+func isNonePlaceholderOption(typ ast.Type) bool {
+	if typ.Kind() != ast.OptionTypeKind {
+		return false
+	}
+	inner, isAny := typ.(ast.OptionType).Inner.(ast.AnyType)
+	return isAny && inner.IsNonePlaceholder
+}
+
 // Options are exempt from the implicit-`any` rule: check the `then` branch against the `else` branch as well.
 func (self *Analyzer) checkThenBranchOption(thenType ast.Type, elseType ast.Type) *CompatibilityError {
 	if thenType.Kind() != ast.OptionTypeKind || elseType.Kind() != ast.OptionTypeKind {
@@ -1446,6 +1455,10 @@ func (self *Analyzer) matchExpression(node pAst.MatchExpression) ast.AnalyzedMat
 			if err.ExpectedDiagnostic != nil {
 				self.diagnostics = append(self.diagnostics, *err.ExpectedDiagnostic)
 			}
+		} else if isNonePlaceholderOption(resultType) && action.Type().Kind() == ast.OptionTypeKind {
+			// So far every arm was a bare `none`: this arm says which option type the match has, and the
+			// remaining arms are checked against it (`none` alone would accept any of them).
+			resultType = action.Type()
 		}
 
 		containsDefault := false
